@@ -367,7 +367,22 @@ func (t *TypeSpec) Build() (jsonapi.Type, error) {
 		return t.SoftType()
 	}
 
-	return jsonapi.BuildType(reflect.New(t.GoStruct()).Interface())
+	typ, err := jsonapi.BuildType(reflect.New(t.GoStruct()).Interface())
+	if err != nil {
+		return typ, err
+	}
+
+	// Struct tags cannot say whether the other end of a relationship is to-one;
+	// the schema's owner sets FromOne by hand (as the repository's own mock schema
+	// does), so a struct-backed type in a schema says more than Wrap reads from tags.
+	for _, r := range t.Rels {
+		if jr, ok := typ.Rels[r.Name]; ok && r.ToName != "" {
+			jr.FromOne = r.FromOne
+			typ.Rels[r.Name] = jr
+		}
+	}
+
+	return typ, nil
 }
 
 // BuildSchema materialises a schema spec through AddType. typeOrder, when not
